@@ -249,6 +249,39 @@ func (c *counter) require(t *testing.T, prop string, pct float64, classes ...str
 	}
 }
 
+// uniq removes duplicate class labels (a class is counted once per case).
+func uniq(l []string) []string {
+	seen := map[string]bool{}
+	var out []string
+	for _, x := range l {
+		if !seen[x] {
+			seen[x] = true
+			out = append(out, x)
+		}
+	}
+	return out
+}
+
+// excuser calls rec.Excuse at most once per finding and case, so that excluded_known counts cases.
+type excuser struct {
+	rec  *ev.Rec
+	done map[string]bool
+}
+
+func newExcuser(rec *ev.Rec) *excuser { return &excuser{rec: rec, done: map[string]bool{}} }
+
+func (e *excuser) excuse(id string, trigger bool) bool {
+	if !trigger {
+		return false
+	}
+	if r, ok := e.done[id]; ok {
+		return r
+	}
+	r := e.rec.Excuse(id, true)
+	e.done[id] = r
+	return r
+}
+
 func has(l []string, s string) bool {
 	for _, x := range l {
 		if x == s {
